@@ -61,36 +61,41 @@ def crate_dir(crate):
 
 
 _staged = {}
+_stage_lock = __import__("threading").Lock()
+
+
+def _copy_rewritten(src, dst):
+    if os.path.isdir(dst):
+        shutil.rmtree(dst)
+    shutil.copytree(src, dst, ignore=shutil.ignore_patterns("target"))
+    for dp, _, fs in os.walk(dst):
+        for f in fs:
+            if f.endswith((".rs", ".toml")):
+                p = os.path.join(dp, f)
+                s = open(p).read()
+                s2 = s.replace('"/repo/', '"' + REPO + '/').replace('"/repo"', '"' + REPO + '"')
+                if s2 != s:
+                    open(p, "w").write(s2)
 
 
 def stage_crate(crate):
     """VERIF_REPO override: copy the harness crate with /repo rewritten (for scratch worktrees)."""
-    if crate in _staged:
+    with _stage_lock:
+        if crate in _staged:
+            return _staged[crate]
+        tag = hashlib.sha1(REPO.encode()).hexdigest()[:10]
+        base = os.path.join(BUILD, "stage-" + tag)
+        if "__common__" not in _staged:
+            if os.path.isdir(os.path.join(ROOT, "kani", "rabuf_model")):
+                _copy_rewritten(os.path.join(ROOT, "kani", "rabuf_model"), os.path.join(base, "kani", "rabuf_model"))
+            sp = os.path.join(base, "spec")
+            if os.path.isdir(sp):
+                shutil.rmtree(sp)
+            shutil.copytree(os.path.join(ROOT, "spec"), sp)
+            _staged["__common__"] = base
+        _copy_rewritten(os.path.join(ROOT, "kani", crate), os.path.join(base, "kani", crate))
+        _staged[crate] = os.path.join(base, "kani", crate)
         return _staged[crate]
-    tag = hashlib.sha1(REPO.encode()).hexdigest()[:10]
-    base = os.path.join(BUILD, "stage-" + tag)
-    for c in [crate, "rabuf_model"]:
-        src = os.path.join(ROOT, "kani", c)
-        dst = os.path.join(base, "kani", c)
-        if not os.path.isdir(src):
-            continue
-        if os.path.isdir(dst):
-            shutil.rmtree(dst)
-        shutil.copytree(src, dst, ignore=shutil.ignore_patterns("target"))
-        for dp, _, fs in os.walk(dst):
-            for f in fs:
-                if f.endswith((".rs", ".toml")):
-                    p = os.path.join(dp, f)
-                    s = open(p).read()
-                    s2 = s.replace('"/repo/', '"' + REPO + '/').replace('"/repo"', '"' + REPO + '"')
-                    if s2 != s:
-                        open(p, "w").write(s2)
-    sp = os.path.join(base, "spec")
-    if os.path.isdir(sp):
-        shutil.rmtree(sp)
-    shutil.copytree(os.path.join(ROOT, "spec"), sp)
-    _staged[crate] = os.path.join(base, "kani", crate)
-    return _staged[crate]
 
 
 def target_dir(crate, features=()):
